@@ -405,6 +405,27 @@ func ifaceKey(cc *ssa.CallCommon) string {
 }
 
 // ifaceContractAt: a contract written for one call site (interface <iface>.<method>@<caller>) takes precedence there.
+// resolveSameAs: an interface-method contract declared "sameas <implementation>" is that implementation's contract
+// with the interface contract's parameter names (the production implementation is assumed to be the dynamic callee).
+func (ex *Exec) resolveSameAs(c *FuncContract) *FuncContract {
+	if c == nil || c.SameAs == "" {
+		return c
+	}
+	t, ok := ex.P.CS.Funcs[c.SameAs]
+	if !ok {
+		ex.fail("interface contract %s: sameas target %s has no contract", c.Key, c.SameAs)
+	}
+	cp := *t
+	cp.Params = c.Params
+	cp.Key = c.Key
+	cp.Behaviors = nil
+	if fn := ex.P.FindFunc(t.PkgPath, t.Key); fn != nil && fn.Signature.Recv() != nil {
+		cp.RecvType = fn.Signature.Recv().Type()
+	}
+	ex.assumptions["calls through "+c.Key+" reach "+c.SameAs+" (its proved contract is used at the call site)"] = true
+	return &cp
+}
+
 func (ex *Exec) ifaceContractAt(cc *ssa.CallCommon, caller *ssa.Function) (*FuncContract, bool) {
 	if caller != nil && caller.Pkg != nil && cc.Method != nil {
 		at := "@" + caller.Pkg.Pkg.Name() + "." + caller.RelString(caller.Pkg.Pkg)
@@ -414,18 +435,18 @@ func (ex *Exec) ifaceContractAt(cc *ssa.CallCommon, caller *ssa.Function) (*Func
 				continue
 			}
 			if k == ifaceKey(cc)+at {
-				return c, true
+				return ex.resolveSameAs(c), true
 			}
 			if it := ex.lookupIface(strings.TrimSuffix(k, suffix)); it != nil {
 				for i := 0; i < it.NumMethods(); i++ {
 					if it.Method(i) == cc.Method {
-						return c, true
+						return ex.resolveSameAs(c), true
 					}
 				}
 			}
 		}
 	}
-	return ex.ifaceContract(cc), false
+	return ex.resolveSameAs(ex.ifaceContract(cc)), false
 }
 
 func (ex *Exec) ifaceContract(cc *ssa.CallCommon) *FuncContract {
@@ -575,6 +596,9 @@ func (ex *Exec) doCall(fr *frame, st *State, cc *ssa.CallCommon, fnv Val, args [
 			}
 			all := append([]Val{rt}, args...)
 			ptypes := []types.Type{cc.Value.Type()}
+			if c.RecvType != nil {
+				ptypes[0] = c.RecvType
+			}
 			for i := 0; i < cc.Signature().Params().Len(); i++ {
 				ptypes = append(ptypes, cc.Signature().Params().At(i).Type())
 			}
